@@ -148,75 +148,119 @@ func ruleC13(c *Ctx, r *Result) {
 	r.Floor("C13.2", 6)
 
 	// --- C13.3 failure atomicity
-	c.checkNoErrorAfterStore(r, "C13.3", rz, isWOH, false, "hdf5.DatasetWriter.objectHeader", "hdf5.DatasetWriter.dims", "hdf5.DatasetWriter.dataSize", "hdf5.DatasetWriter.chunkCoordinator", "core.HeaderMessage.Data")
+	// (loading the header into dw.objectHeader is not a change: it caches what is on disk, and since writeChunkedData keeps the
+	// cached layout message in step - C13.6 - an early load can no longer make a later write-back stale)
+	c.checkNoErrorAfterStore(r, "C13.3", rz, isWOH, false, "hdf5.DatasetWriter.dims", "hdf5.DatasetWriter.dataSize", "hdf5.DatasetWriter.chunkCoordinator", "core.HeaderMessage.Data")
 	r.Floor("C13.3", 5)
 
-	// --- C13.4 creation gate
+	// --- C13.4 creation gate (in CreateDataset itself or in a validating helper it calls with dims and the configuration,
+	// whose error result it returns)
 	cd := c.Fn(r, "hdf5.FileWriter.CreateDataset")
 	if cd != nil {
-		var cmp *ssa.If
-		for _, b := range cd.Blocks {
-			ifi, ok := b.Instrs[len(b.Instrs)-1].(*ssa.If)
-			if !ok {
-				continue
-			}
-			bo, ok := ifi.Cond.(*ssa.BinOp)
-			if !ok || (bo.Op != token.LSS && bo.Op != token.GTR) {
-				continue
-			}
-			xMax := elemOfField(bo.X, "hdf5.datasetConfig.maxDims")
-			yMax := elemOfField(bo.Y, "hdf5.datasetConfig.maxDims")
-			xDim := elemOfParam(bo.X, cd, 3)
-			yDim := elemOfParam(bo.Y, cd, 3)
-			if (bo.Op == token.LSS && xMax && yDim) || (bo.Op == token.GTR && xDim && yMax) {
-				cmp = ifi
-			}
+		type gateInfo struct {
+			cmp      *ssa.If         // maxDims[i] vs dims[i]
+			lenTest  *ssa.BasicBlock // len(maxDims) > 0 / == 0 test
+			chunkReq bool
 		}
-		r.Check(cmp != nil, "C13.4", c.Name(cd)+"#maxDims>=dims", c.Pos(cd.Pos()), "creation compares each maxDims[i] with dims[i]")
-		// no allocation / delegation before the gate region: every Allocate call and the chunked delegation are dominated by the maxDims-length test block
-		var lenTest *ssa.BasicBlock
-		for _, b := range cd.Blocks {
-			ifi, ok := b.Instrs[len(b.Instrs)-1].(*ssa.If)
-			if !ok {
-				continue
-			}
-			if bo, ok := ifi.Cond.(*ssa.BinOp); ok && bo.Op == token.GTR {
-				if call, ok := bo.X.(*ssa.Call); ok {
-					if bi, ok := call.Call.Value.(*ssa.Builtin); ok && bi.Name() == "len" && valueReadsField(call.Call.Args[0], "hdf5.datasetConfig.maxDims", 0) {
-						lenTest = b
+		findIn := func(fn *ssa.Function, dimsIdx int) gateInfo {
+			var g gateInfo
+			for _, b := range fn.Blocks {
+				ifi, ok := b.Instrs[len(b.Instrs)-1].(*ssa.If)
+				if !ok {
+					continue
+				}
+				bo, ok := ifi.Cond.(*ssa.BinOp)
+				if !ok {
+					continue
+				}
+				if bo.Op == token.LSS || bo.Op == token.GTR {
+					xMax := elemOfField(bo.X, "hdf5.datasetConfig.maxDims")
+					yMax := elemOfField(bo.Y, "hdf5.datasetConfig.maxDims")
+					xDim := elemOfParam(bo.X, fn, dimsIdx)
+					yDim := elemOfParam(bo.Y, fn, dimsIdx)
+					if (bo.Op == token.LSS && xMax && yDim) || (bo.Op == token.GTR && xDim && yMax) {
+						g.cmp = ifi
 					}
 				}
-			}
-		}
-		for _, site := range callsIn(cd) {
-			n := c.calleeName(site)
-			if n == "writer.FileWriter.Allocate" || n == "hdf5.FileWriter.createChunkedDataset" {
-				ok := lenTest != nil && lenTest.Dominates(site.Block()) && site.Block() != lenTest
-				if ok && cmp != nil {
-					// and the comparison loop cannot be re-entered after the effect
-					ok = !reachableFrom(site.Block(), nil)[cmp.Block()]
-				}
-				r.Check(ok, "C13.4", c.Name(cd)+"#gate-precedes-"+n, c.InstrPos(site), "validation of maxDims precedes allocation / chunked creation")
-			}
-		}
-		// chunking required for resizable datasets: an error exit guarded by len(chunkDims)==0 inside the maxDims branch
-		chunkReq := false
-		for _, b := range cd.Blocks {
-			ifi, ok := b.Instrs[len(b.Instrs)-1].(*ssa.If)
-			if !ok || lenTest == nil || !lenTest.Dominates(b) {
-				continue
-			}
-			if bo, ok := ifi.Cond.(*ssa.BinOp); ok && bo.Op == token.EQL {
-				if call, ok := bo.X.(*ssa.Call); ok {
-					if bi, ok := call.Call.Value.(*ssa.Builtin); ok && bi.Name() == "len" && valueReadsField(call.Call.Args[0], "hdf5.datasetConfig.chunkDims", 0) {
-						if z, ok := constInt(bo.Y); ok && z == 0 {
-							chunkReq = true
+				if bo.Op == token.GTR || bo.Op == token.EQL || bo.Op == token.NEQ {
+					if call, ok := bo.X.(*ssa.Call); ok {
+						if bi, ok := call.Call.Value.(*ssa.Builtin); ok && bi.Name() == "len" {
+							if z, isZ := constInt(bo.Y); isZ && z == 0 {
+								if valueReadsField(call.Call.Args[0], "hdf5.datasetConfig.maxDims", 0) {
+									g.lenTest = b
+								}
+								if valueReadsField(call.Call.Args[0], "hdf5.datasetConfig.chunkDims", 0) && bo.Op == token.EQL {
+									// the == 0 edge must be an error exit
+									if ret, isRet := b.Succs[0].Instrs[len(b.Succs[0].Instrs)-1].(*ssa.Return); isRet && !isSuccessReturn(ret) {
+										g.chunkReq = true
+									}
+								}
+							}
 						}
 					}
 				}
 			}
+			return g
 		}
-		r.Check(chunkReq, "C13.4", c.Name(cd)+"#resizable-requires-chunking", c.Pos(cd.Pos()), "a dataset with maxDims and no chunk dimensions is rejected")
+		g := findIn(cd, 3)
+		anchor := g.lenTest
+		var cmpBlk *ssa.BasicBlock
+		if g.cmp != nil {
+			cmpBlk = g.cmp.Block()
+		}
+		where := c.Name(cd)
+		if g.cmp == nil {
+			// a validating helper: called with dims, its error returned on the non-nil edge
+			for _, site := range callsIn(cd) {
+				call, ok := site.(*ssa.Call)
+				callee := site.Common().StaticCallee()
+				if !ok || callee == nil || !inModule(fnPkgPath(callee)) || len(callee.Blocks) == 0 || errResultIndex(callee.Signature) < 0 {
+					continue
+				}
+				di := -1
+				for ai, a := range call.Call.Args {
+					if a == ssa.Value(cd.Params[3]) {
+						di = ai
+					}
+				}
+				if di < 0 {
+					continue
+				}
+				gv := findIn(callee, di)
+				if gv.cmp == nil {
+					continue
+				}
+				// the helper's failure exits are behind its tests: every success return must be unreachable from the failing edge (by construction of If->error return); its result must be checked by the caller
+				checked := false
+				for _, ev := range errValuesOfCall(call) {
+					for _, ref := range *ev.Referrers() {
+						if bo, isB := ref.(*ssa.BinOp); isB && (bo.Op == token.NEQ || bo.Op == token.EQL) {
+							checked = true
+						}
+					}
+				}
+				if !checked {
+					continue
+				}
+				g = gv
+				anchor = call.Block()
+				cmpBlk = nil
+				where = c.Name(callee) + " (called from CreateDataset)"
+			}
+		}
+		r.Check(g.cmp != nil, "C13.4", c.Name(cd)+"#maxDims>=dims", c.Pos(cd.Pos()), "creation compares each maxDims[i] with dims[i] (found in "+where+")")
+		for _, site := range callsIn(cd) {
+			n := c.calleeName(site)
+			if n == "writer.FileWriter.Allocate" || n == "hdf5.FileWriter.createChunkedDataset" {
+				ok := anchor != nil && anchor.Dominates(site.Block()) && site.Block() != anchor
+				if ok && cmpBlk != nil {
+					// and the comparison loop cannot be re-entered after the effect
+					ok = !reachableFrom(site.Block(), nil)[cmpBlk]
+				}
+				r.Check(ok, "C13.4", c.Name(cd)+"#gate-precedes-"+n, c.InstrPos(site), "validation of maxDims precedes allocation / chunked creation")
+			}
+		}
+		r.Check(g.chunkReq, "C13.4", c.Name(cd)+"#resizable-requires-chunking", c.Pos(cd.Pos()), "a dataset with maxDims and no chunk dimensions is rejected")
 	}
 	r.Floor("C13.4", 3)
 
